@@ -11,85 +11,85 @@ BASELINE_OFF = ("cd /repo && go build ./... && go test -mod=mod -json -vet=off -
 CLAIMS = {
     "C01": (
         "path-sensitive enumeration of every return of the request-body adapters' Read (named results and boolean phis resolved along the path, pure expressions canonicalised) for the provenance of io.EOF; dominance of sendBuffer() by a successful advanceToStage(stageSend); who-may-call the stage helpers; must-pass of the buffer reset; path enumeration of the stage function's decision table (skip / decompress / decode / encode / recompress) and direction-indexed side selection of codec and compression pool",
-        "Very narrow claim at level 'other': five structural clauses of 'same count, nothing dropped or prefixed, every needed conversion step taken with the right side's codec' (C01.1-C01.5). Field-for-field equality of message values across codecs/compressions is value semantics and is NOT decided by this family (see DESIGN.md, D12 is out of reach).",
+        "Very narrow claim at level 'other': five structural clauses of 'same count, nothing dropped or prefixed, every needed conversion step taken with the right side's codec' (C01.1-C01.6 plus the shared clauses C07.6, C08.1, C08.3, C08.4, C09.1, C09.7, C10.1). Field-for-field equality of message values across codecs/compressions is value semantics and is NOT decided by this family (see DESIGN.md, D12 is out of reach).",
         "Trusts io.Reader/bytes.Buffer contracts. Everything about payload values is outside the claim.",
         "DESIGN.md section 6, C01",
     ),
     "C08": (
         "forward dataflow (typestate {zero, nonzero, unknown}) of the envelope cursor with branch refinement; must-pass of the cursor update after each envelope copy with the dominating length comparison it needs; offset/decrement shape of the writer-side accumulation",
-        "Narrow claim at level 'other': the structural preconditions for segmentation independence that the adapters' state machines rely on (C08.1-C08.2); equality of outputs over all split points is a schedule/value property and is not decided.",
+        "Narrow claim at level 'other': the structural preconditions for segmentation independence that the adapters' state machines rely on (C08.1-C08.5 plus the shared clauses C01.1, C10.6, C16.5); equality of outputs over all split points is a schedule/value property and is not decided.",
         "Trusts go/ssa dominators and the structural identification of the adapters (Read method + envelope array + cursor).",
         "DESIGN.md section 6, C08",
     ),
     "C09": (
         "path-sensitive provenance of the payload read's error, dominated reportError calls in both Close methods, constant folding of all envelope decoders/encoders over the 256 flag bytes, error-discipline check (non-nil edge never reaches the success continuation) at every codec/compression/framing call, missing-status witness",
-        "Decides that the code has no path turning truncated / malformed input into a clean end (C09.1-C09.5), for every call site rather than sampled cut points. Level 'other'; enumeration of byte offsets and hangs are not decided.",
+        "Decides that the code has no path turning truncated / malformed input into a clean end (C09.1-C09.8 plus the shared clauses C03.14, C04.8), for every call site rather than sampled cut points. Level 'other'; enumeration of byte offsets and hangs are not decided.",
         "Trusts io.CopyN/ReadFull contracts and the accepted-idiom table in checker/vg/c09.go.",
         "DESIGN.md section 6, C09",
     ),
     "C10": (
         "limit vocabulary: origin tracing to the maxMsgBufferBytes field, dominating comparisons, one-level function-result and parameter summaries; enumeration of every reader->buffer copy, Grow and accumulating Write at request time; exact 'LimitReader(limit+1) then n > limit' idiom; resource_exhausted constant",
-        "Decides that no request-time path buffers wire or decompressed bytes without a limit-derived bound and that exceeding is detectable and reported as resource_exhausted (C10.1-C10.4). Level 'other'; the resident multiple of L and codec-internal allocation are not decided.",
+        "Decides that no request-time path buffers wire or decompressed bytes without a limit-derived bound and that exceeding is detectable and reported as resource_exhausted (C10.1-C10.7). Level 'other'; the resident multiple of L and codec-internal allocation are not decided.",
         "Trusts the enumeration of copy primitives (ReadFrom, io.Copy/CopyBuffer/CopyN/ReadAll, Buffer.Write in Write methods, Grow).",
         "DESIGN.md section 6, C10",
     ),
     "C11": (
         "interval proof of table indices; fixpoint over guards for method calls through nil-able collaborators (non-nil tests, dominating calls, correlated flags and sentinels, all-call-sites); enumeration of panic/assert/go constructs and call-graph cycles at request time; divisor analysis; who-may-call WriteHeader",
-        "Partial claim at level 'other': absence of the locally judgeable crash/wedge constructs (C11.1-C11.6). Totality over all inputs, termination and state-dependent slice bounds are NOT decided.",
+        "Partial claim at level 'other': absence of the locally judgeable crash/wedge constructs (C11.1-C11.13 plus the shared clauses C08.1). Totality over all inputs, termination and state-dependent slice bounds are NOT decided.",
         "Trusts the collaborator identification ('x, _ = v.(I)' stores) and the list of bounded recursions in checker/vg/c11.go.",
         "DESIGN.md section 6, C11",
     ),
     "C14": (
         "pooled-buffer ownership typestate (no use / second release after Put, release-then-clear on every exit path, swap discipline by path enumeration), error-cell guard before touching buffer-aliasing fields, lock-before-fields and deferred unlock, lock-set comparison between reader-side and writer-side roots with a known-findings file",
-        "Structural necessary conditions of isolation and race freedom (C14.1-C14.3), decided for every path. The reader-side reportError race is a genuine defect recorded as known finding KF-1 (per cell and root); any other shared cell is reported. Level 'other'; interleaving semantics are not decided.",
+        "Structural necessary conditions of isolation and race freedom (C14.1-C14.4 plus the shared clauses C03.13, C11.13), decided for every path. The reader-side reportError race is a genuine defect recorded as known finding KF-1 (per cell and root); any other shared cell is reported. Level 'other'; interleaving semantics are not decided.",
         "Trusts sync.Pool semantics; the reachability used for C14.3 relies on a separately checked invariant (responseWriter.delegate is the caller's writer).",
         "DESIGN.md section 6, C14",
     ),
     "C16": (
         "must-pass of the per-message flush after each completed message (path-sensitive in the re-framing writer), flusher lookup order by dominance of type assertions, table of endMustBeInHeaders implementers, path classification of WriteHeader (flushed vs. legitimately held back), unit-bounded reads of the client body, single-message invariant for un-enveloped bodies",
-        "Structural preconditions of message-by-message progress (C16.1-C16.5); liveness over a real HTTP/2 connection is not decided. Level 'other'.",
+        "Structural preconditions of message-by-message progress (C16.1-C16.5 plus the shared clauses C11.13); liveness over a real HTTP/2 connection is not decided. Level 'other'.",
         "Trusts http.Flusher contract.",
         "DESIGN.md section 6, C16",
     ),
     "C02": (
         "origin tracing of the request metadata and negotiated server cells, dominating membership facts, read=>delete pairing on header maps, constant folding of envelope encoders/decoders over all 256 flag bytes, origin equality between envelope length and payload bound, dominating limit checks for narrowing conversions, constant extraction of the Content-Type prefixes each protocol writes and path-sensitive reading of the request classifier's content-type tests against the wire formats' table",
-        "Structural necessary conditions of 'the backend sees a valid request in a protocol/codec/compression it accepts', decided for every path and every call site (C02.1-C02.8). Level 'other': a rule set over the SSA form; values of headers and payload bytes are not decided.",
+        "Structural necessary conditions of 'the backend sees a valid request in a protocol/codec/compression it accepts', decided for every path and every call site (C02.1-C02.10 plus the shared clauses C12.4, C17.4). Level 'other': a rule set over the SSA form; values of headers and payload bytes are not decided.",
         "Trusts go/types + go/ssa, the constant folder in checker/vg/fold.go (pure integer/boolean fragments only), the wire-format reference tables in checker/vg/envelope.go.",
         "DESIGN.md section 6, C02",
     ),
     "C03": (
         "who-may-call over the call graph, dominating guard facts (endWritten / headersFlushed / error cell), must-pass of flag stores on every exit path, origin equality envelope length <-> bound, Content-Length <-> written buffer pairing, per-path evidence rules for error-cell stores and Content-Encoding announcements, Content-Type prefix table per client protocol",
-        "Structural necessary conditions of 'exactly one valid terminal disposition, frames and Content-Length agree with the bytes written' (C03.1-C03.10), decided path-completely. Level 'other'.",
+        "Structural necessary conditions of 'exactly one valid terminal disposition, frames and Content-Length agree with the bytes written' (C03.1-C03.15 plus the shared clauses C01.4, C01.6), decided path-completely. Level 'other'.",
         "Trusts go/types + go/ssa and the module call graph. Does not decide validity of body bytes or declared compression for un-enveloped clients.",
         "DESIGN.md section 6, C03",
     ),
     "C04": (
         "interval analysis of table indices under dominating comparisons, extraction of the RPC->HTTP literal and constant folding of the HTTP->RPC switch over 100..599 compared with the published mapping, constant folding of the percent-escape predicate over all 256 bytes, reachability of the mapping from every server protocol, writer/reader key-set agreement, constant evaluation of the separators with which the gRPC-Web in-body trailer block is split",
-        "Decides that no out-of-range code can index past the tables, that both code tables equal the published mapping for every input in their finite domain, that all five backends use them, and that gRPC status keys / percent-encoding are written and read as pairs (C04.1-C04.6). Level 'other'; tables are finite so the table clauses are exhaustive.",
+        "Decides that no out-of-range code can index past the tables, that both code tables equal the published mapping for every input in their finite domain, that all five backends use them, and that gRPC status keys / percent-encoding are written and read as pairs (C04.1-C04.8 plus the shared clauses C03.4, C03.9). Level 'other'; tables are finite so the table clauses are exhaustive.",
         "Trusts the reference tables transcribed in checker/vg/c04.go from the Connect/gRPC specifications, and the folder's integer semantics.",
         "DESIGN.md section 6, C04",
     ),
     "C05": (
         "effect enumeration of every http.Header mutation reachable from ServeHTTP, classification by key origin (constant control key vs. key derived from a ranged header entry), move-deletes-source pairing, consumption of responseEnd.trailers by every RPC client encoder, read=>delete pairing of gRPC status keys",
-        "Frame condition: nothing but protocol control keys and whole-entry relocations ever changes a header map, on either leg, for any key set (C05.1-C05.4). Level 'other'.",
+        "Frame condition: nothing but protocol control keys and whole-entry relocations ever changes a header map, on either leg, for any key set (C05.1-C05.7 plus the shared clauses C03.12). Level 'other'.",
         "Trusts the control-key table in checker/vg/c05.go and net/http's TrailerPrefix contract. Does not decide canonicalisation of arbitrary keys or -bin value encoding.",
         "DESIGN.md section 6, C05",
     ),
     "C06": (
         "encoding-class origin tracing of the matcher's path argument, who-may-decode under the matcher, path-sensitive enumeration of the trie walk (short-circuit conditions resolved per path), dominating 'no existing entry' facts for table stores",
-        "Decides that the matcher sees the still-encoded path and decodes captures once, the literal/*/** precedence with 405 semantics, 404-vs-success construction, and that no route or method entry is ever overwritten (C06.1-C06.4). Level 'other'.",
+        "Decides that the matcher sees the still-encoded path and decodes captures once, the literal/*/** precedence with 405 semantics, 404-vs-success construction, and that no route or method entry is ever overwritten (C06.1-C06.6). Level 'other'.",
         "Trusts net/url's EscapedPath contract. Does not decide the template grammar or capture arithmetic.",
         "DESIGN.md section 6, C06",
     ),
     "C07": (
         "return-origin check of the parameter setter, AST extraction of the two protoreflect.Kind switches compared with every declared Kind, path ordering of the three binding phases, source-coverage agreement between the needs-preparation predicate and the preparer",
-        "Only necessary clauses are decided (C07.1-C07.4); the to-REST-and-back identity itself is a value property and is not decided. Level 'other' (narrow).",
+        "Only necessary clauses are decided (C07.1-C07.8 plus the shared clauses C11.12); the to-REST-and-back identity itself is a value property and is not decided. Level 'other' (narrow).",
         "Trusts go/types constant values for the Kind enumeration.",
         "DESIGN.md section 6, C07",
     ),
     "C12": (
         "may-return fixpoint of the 'no timeout' sentinel over the call graph with errors.Is filtering facts, dominating facts at every store of the deadline cell, whole-struct copy check, sibling agreement of the five target encoders and six extractors, operator whitelist on the numeric path of each duration encoder, constant folding of the gRPC unit table",
-        "Decides that the unbounded-sentinel can never become a rejection, that the deadline cell is written only by successful extraction and reaches the encoder unmodified, that every target encodes and every client form decodes it, and that encoders only truncate (C12.1-C12.4). Level 'other'.",
+        "Decides that the unbounded-sentinel can never become a rejection, that the deadline cell is written only by successful extraction and reaches the encoder unmodified, that every target encodes and every client form decodes it, and that encoders only truncate (C12.1-C12.6). Level 'other'.",
         "Trusts time.Duration accessor semantics. Does not decide numeric error bounds or the REST float parse.",
         "DESIGN.md section 6, C12",
     ),
@@ -101,13 +101,13 @@ CLAIMS = {
     ),
     "C15": (
         "write-effect enumeration over everything reachable from ServeHTTP against the configuration graph rooted at Transcoder (with a positive control rooted at NewTranscoder), must-pass Reset / deferred Put on pooled objects, who-may-touch the sync.Pools, capacity guard, absence of other cross-request state",
-        "Frame argument for history independence: request-time code writes nothing that outlives the RPC, and the only survivors (pooled buffers, (de)compressors) are reset before use on every path (C15.1-C15.4). Level 'other'.",
+        "Frame argument for history independence: request-time code writes nothing that outlives the RPC, and the only survivors (pooled buffers, (de)compressors) are reset before use on every path (C15.1-C15.4 plus the shared clauses C03.13, C14.1, C14.4). Level 'other'.",
         "Trusts sync.Pool and Reset contracts. Does not decide capacity-dependent behaviour or state inside dependencies.",
         "DESIGN.md section 6, C15",
     ),
     "C17": (
         "return-shape check of NewTranscoder, error-propagation check at every static call of an error-returning module function under NewTranscoder, structural witnesses (guard edge leads only to error returns) for each listed validation, loop-carried-flag analysis, path-sensitive binding condition of rule selectors, copy-per-iteration and map-replacement checks for option resolution, cycle analysis of the template parser's segment loop (every iteration passes the seen-'**' test)",
-        "Decides that configuration errors are never swallowed, that each validation named by the property exists as an error edge, that a selector binds only on exact match or wildcard prefix, and that per-service options override (not mutate) defaults (C17.1-C17.5). Level 'other'; the exact accept/reject boundary is not decided.",
+        "Decides that configuration errors are never swallowed, that each validation named by the property exists as an error edge, that a selector binds only on exact match or wildcard prefix, and that per-service options override (not mutate) defaults (C17.1-C17.5 plus the shared clauses C06.2). Level 'other'; the exact accept/reject boundary is not decided.",
         "Trusts go/ssa loop structure (dominators).",
         "DESIGN.md section 6, C17",
     ),
@@ -119,7 +119,7 @@ CLAIMS = {
     ),
     "C19": (
         "path-sensitive enumeration of the GET predicates and of method resolution (boolean phis resolved per path), dominating facts at the GET return of the request-line builder, origin check of every store to Request.Method, must-pass of the keep-store in the query accessor",
-        "Decides that GET is accepted only for NO_SIDE_EFFECTS methods with HTTP method GET, issued only under the three-way conjunction and within the URL limit, and carries no body (C19.1-C19.4). Level 'other'; exactness of the URL length arithmetic and GET/POST message equality are not decided.",
+        "Decides that GET is accepted only for NO_SIDE_EFFECTS methods with HTTP method GET, issued only under the three-way conjunction and within the URL limit, and carries no body (C19.1-C19.4 plus the shared clauses C02.10). Level 'other'; exactness of the URL length arithmetic and GET/POST message equality are not decided.",
         "Trusts descriptorpb's enum constant.",
         "DESIGN.md section 6, C19",
     ),
